@@ -291,10 +291,14 @@ fn async_cmd(a: &Args) {
                 "wait"
             } else if x < 0.8 {
                 "wait_without_tl"
-            } else if x < 0.87 {
+            } else if x < 0.85 {
                 "world"
-            } else if x < 0.94 {
+            } else if x < 0.88 {
+                "res"
+            } else if x < 0.92 {
                 "world_mut"
+            } else if x < 0.95 {
+                "mut_res"
             } else {
                 "setup"
             };
